@@ -31,6 +31,7 @@ type FnCase struct {
 	FBErrResult bool `json:"fb_err_result,omitempty"` // with FBResult: the fallback hands back (flyt.NewErrorResult(err), nil) — its outcome replaces the exec outcome, error state included, exactly as if exec had returned that error Result
 	CancelInExec bool `json:"cancel_in_exec,omitempty"` // the run's context is cancelled inside the exec function, which still returns normally: post receives exactly what exec returned
 	Conc    int    `json:"conc,omitempty"`       // a batch concurrency (and error mode) configured on the plain function node: must change nothing
+	Wrap    string `json:"wrap,omitempty"`       // the node is used through composition: embed-builder | embed-custom | decorator (single / flow); bare | bare-in-flow | bare-in-nested-flow | builder-in-flow (batch)
 }
 
 var errFn = errors.New("exec-produced error state")
@@ -232,7 +233,18 @@ func runFnCase(cs *FnCase) (fs []finding) {
 			}
 			return "next", nil
 		})
-		if _, err := flyt.Run(context.Background(), bn, flyt.NewSharedStore()); err != nil {
+		var bnode flyt.Node = bn
+		switch cs.Wrap { // the same batch node handed to the framework in another guise
+		case "bare":
+			bnode = bn.BatchNode
+		case "bare-in-flow":
+			bnode = flyt.NewFlow(bn.BatchNode)
+		case "bare-in-nested-flow":
+			bnode = flyt.NewFlow(flyt.NewFlow(bn.BatchNode))
+		case "builder-in-flow":
+			bnode = flyt.NewFlow(bn)
+		}
+		if _, err := flyt.Run(context.Background(), bnode, flyt.NewSharedStore()); err != nil {
 			add("batch-run-error", "batch run failed: %v", err)
 		}
 		for i, sl := range slots {
@@ -340,10 +352,19 @@ func runFnCase(cs *FnCase) (fs []finding) {
 			node = node.WithPostFuncAny(postAny)
 		}
 	}
+	var run flyt.Node = node
+	switch cs.Wrap { // the function node used through composition: the promoted / forwarded methods are the node's phases
+	case "embed-builder":
+		run = &struct{ *flyt.NodeBuilder }{node}
+	case "embed-custom":
+		run = &struct{ *flyt.CustomNode }{node.CustomNode}
+	case "decorator":
+		run = &fwdNode{BaseNode: flyt.NewBaseNode(flyt.WithMaxRetries(maxInt(1, cs.Retries))), inner: node}
+	}
 	if cs.Context == "flow" {
 		visited := false
 		probe := flyt.NewNode().WithExecFuncAny(func(ctx context.Context, v any) (any, error) { visited = true; return nil, nil })
-		f := flyt.NewFlow(node).Connect(node, "next", probe)
+		f := flyt.NewFlow(run).Connect(run, "next", probe)
 		err := f.Run(runCtx, flyt.NewSharedStore())
 		if cs.CancelInExec {
 			// the flow is cut short after this node (C05); what matters here is what post was given
@@ -359,7 +380,7 @@ func runFnCase(cs *FnCase) (fs []finding) {
 			}
 		}
 	} else {
-		act, err := flyt.Run(runCtx, node, flyt.NewSharedStore())
+		act, err := flyt.Run(runCtx, run, flyt.NewSharedStore())
 		if err != nil || act != "next" {
 			add("run-outcome", "run returned (%q, %v)", act, err)
 		}
@@ -369,6 +390,18 @@ func runFnCase(cs *FnCase) (fs []finding) {
 	}
 	finish(1)
 	return o.notes
+}
+
+// fwdNode is a decorator: a node of its own that forwards its three phases to the function node it wraps.
+type fwdNode struct {
+	*flyt.BaseNode
+	inner flyt.Node
+}
+
+func (n *fwdNode) Prep(ctx context.Context, s *flyt.SharedStore) (any, error) { return n.inner.Prep(ctx, s) }
+func (n *fwdNode) Exec(ctx context.Context, p any) (any, error)               { return n.inner.Exec(ctx, p) }
+func (n *fwdNode) Post(ctx context.Context, s *flyt.SharedStore, p, e any) (flyt.Action, error) {
+	return n.inner.Post(ctx, s, p, e)
 }
 
 func rs(b bool) string {
@@ -398,6 +431,15 @@ func runC17(c *Cfg) {
 					}
 					for p := 0; p < nz; p++ {
 						cases = append(cases, &FnCase{Family: "grid", PrepR: st&1 != 0, ExecR: st&2 != 0, PostR: st&4 != 0, Build: build, Context: ctx, P: p, E: (p*7 + 3) % nz, ErrRes: errRes})
+						if p%16 == 5 {
+							wraps := []string{"embed-builder", "embed-custom", "decorator"}
+							if ctx == "batch" {
+								wraps = []string{"bare", "bare-in-flow", "bare-in-nested-flow", "builder-in-flow"}
+							}
+							for _, w := range wraps {
+								cases = append(cases, &FnCase{Family: "grid-composition", PrepR: st&1 != 0, ExecR: st&2 != 0, PostR: st&4 != 0, Build: build, Context: ctx, P: p, E: (p*7 + 3) % nz, ErrRes: errRes, Wrap: w})
+							}
+						}
 						if p%9 == 4 && !errRes && ctx != "batch" { // the fallback supplies a Result-style outcome
 							cases = append(cases, &FnCase{Family: "grid-fallback-result", PrepR: st&1 != 0, ExecR: st&2 != 0, PostR: st&4 != 0, Build: build, Context: ctx, P: p, E: (p*7 + 3) % nz, FB: true, FBResult: true, Retries: 2 * (p % 2)})
 						}
